@@ -31,4 +31,13 @@ def condorcetRule {α : Type} (ev : Condorcet.Pairwise → Nat → α) (p : RPro
 def condorcetSeatless {α : Type} (ev : Condorcet.Pairwise → α) (p : RProfile) : α :=
   ev (rankedToCondorcet true p)
 
+/-- `PreConverted(RankedToCondorcetVotes(unranked_at_bottom=ab), evaluator)`: both modes of the converter.  With
+    `ab = false` truncated ballots leave pairs of candidates that never share a ballot without an entry (an incomplete
+    pairwise dictionary); `condorcetRule = condorcetRuleAt true` by definition. -/
+def condorcetRuleAt {α : Type} (ab : Bool) (ev : Condorcet.Pairwise → Nat → α) (p : RProfile) (n : Nat) : α :=
+  ev (rankedToCondorcet ab p) n
+
+def condorcetSeatlessAt {α : Type} (ab : Bool) (ev : Condorcet.Pairwise → α) (p : RProfile) : α :=
+  ev (rankedToCondorcet ab p)
+
 end VL.PreConv
